@@ -18,7 +18,7 @@ var zooTypes = map[string][]zf{
 	"Query": {{"title", "", ""}, {"count", "", ""}, {"ratio", "", ""}, {"flag", "", ""}, {"size", "", ""},
 		{"keeper", "Keeper", "keeper"}, {"keepers", "Keeper", ""}, {"animals", "Animal", ""}, {"things", "Thing", ""},
 		{"grid", "Cell", ""}, {"echo", "", "echo"}, {"tags", "", ""}, {"nums", "", ""}, {"find", "Keeper", "find"}, {"boss", "Keeper", ""},
-		{"ghost", "", ""}, {"relay", "", "relay"}, {"pick", "Thing", "pick"}, {"join", "", "join"}, {"span", "", "span"}, {"chief", "Keeper", ""}, {"blob", "", "blob"}},
+		{"ghost", "", ""}, {"relay", "", "relay"}, {"pick", "Thing", "pick"}, {"join", "", "join"}, {"span", "", "span"}, {"chief", "Keeper", ""}, {"blob", "", "blob"}, {"tagged", "", "tagged"}},
 	"Keeper": {{"name", "", ""}, {"age", "", ""}, {"pets", "Animal", ""}, {"friend", "Keeper", ""}, {"cells", "Cell", ""},
 		{"motto", "", "motto"}, {"rank", "", ""}, {"dogs", "Dog", ""}, {"ghost", "", ""}, {"nick", "", "nick"}, {"code", "", "code"}},
 	"Dog":      {{"name", "", ""}, {"legs", "", ""}, {"barks", "", ""}, {"owner", "Keeper", ""}, {"code", "", ""}, {"call", "", "call"}},
@@ -235,6 +235,15 @@ func (g *reqGen) argsFor(kind string) string {
 		} else {
 			parts = []string{"i: " + strconv.Itoa(g.t.Draw(12))}
 		}
+	case "tagged":
+		switch g.t.Draw(3) {
+		case 0:
+			parts = []string{"filter: {}"}
+		case 1:
+			parts = []string{"filter: {minAge: " + strconv.Itoa(g.t.Draw(9)) + "}"}
+		default:
+			parts = []string{"filter: {names: [\"n" + strconv.Itoa(g.t.Draw(5)) + "\", \"m\"]}"}
+		}
 	case "blob":
 		switch g.t.Draw(4) {
 		case 0:
@@ -360,6 +369,10 @@ func (g *reqGen) fieldsOf(typ string) []zf {
 			continue // only through the fixed AltRequests (plain struct fields)
 		case "blob":
 			if !g.o.Blob {
+				continue
+			}
+		case "tagged":
+			if !g.o.Span {
 				continue
 			}
 		case "call":
@@ -585,7 +598,15 @@ func GenRequest(t *tape.Tape, o ReqOpt) *Request {
 				d1 = " @include(if: " + g.addVar("inc", "Boolean!", true, "true") + ")"
 				d2 = " @skip(if: " + g.addVar("sk", "Boolean!", false, "false") + ")"
 			}
-			switch t.Draw(3) {
+			switch t.Draw(5) {
+			case 3:
+				// the selection beneath __schema is a named fragment: two documents
+				// can be textually equal up to the body of that fragment
+				g.frags["MetaS"] = "fragment MetaS on __Schema " + []string{"{ queryType { name } }", "{ directives { name } }", "{ types { name } mutationType { name } }", "{ queryType { kind fields { name } } }"}[t.Draw(4)] + "\n"
+				body = " {\n  __schema { ...MetaS }\n}"
+			case 4:
+				g.frags["MetaT"] = "fragment MetaT on __Type " + []string{"{ kind name }", "{ fields { name } }", "{ name possibleTypes { name } interfaces { name } }"}[t.Draw(3)] + "\n"
+				body = " {\n  __type(name: \"" + []string{"Keeper", "Animal", "Thing"}[t.Draw(3)] + "\") { ...MetaT }\n}"
 			case 0:
 				body = " {\n  __schema { queryType { name } mutationType" + d2 + " { name } types" + d1 + " { name kind } directives { name" + d2 + " } }\n}"
 			case 1:
